@@ -415,6 +415,52 @@ fn units<D: Dom>(rep: &mut Report) {
     });
 }
 
+/// float tiers: v nearly {equal to u, opposite to u, zero, 2u, a unit vector} - the shapes a short cut would test for
+/// with the library's tolerant comparisons - exactly, below the scalar epsilon, off by 2^-30 and by 2^-22
+fn nearly_special<T: Tier + Dom<M = Sh>>(rep: &mut Report)
+where
+    Vector1<T>: MaybeNeg,
+    Vector2<T>: MaybeNeg,
+    Vector3<T>: MaybeNeg,
+    Vector4<T>: MaybeNeg,
+{
+    let ds = [0.0, T::U / 64.0, 2f64.powi(-30), 2f64.powi(-22)];
+    rep.cases(
+        "nearly-special",
+        T::NAME,
+        "u generic, v nearly {u, -u, zero, 2u, e_1} x {exactly, below epsilon, by 2^-30, by 2^-22}, both orders: every operation of Vector1-4, cross, perp_dot",
+        5 * ds.len() * 2,
+        Guard::states(40).distinct(20),
+        |i, ctx| {
+            let (shape, di, swap) = (i / (2 * ds.len()), (i / 2) % ds.len(), i % 2 == 1);
+            let d = ds[di];
+            let c = |x: f64| num_traits::cast::<f64, T>(x).unwrap();
+            let u: [T; 4] = vec_from_r(&alphabet::generic(4, 1));
+            let h: [T; 4] = vec_from_r(&alphabet::generic(4, 2));
+            let v: [T; 4] = std::array::from_fn(|j| {
+                let off = d * h[j].f() / 8.0;
+                c(match shape {
+                    0 => u[j].f() * (1.0 + d * (j + 1) as f64),
+                    1 => -u[j].f() * (1.0 + d * (j + 1) as f64),
+                    2 => off,
+                    3 => 2.0 * u[j].f() + off,
+                    _ => (if j == 0 { 1.0 } else { 0.0 }) + if j == 0 { 0.0 } else { off },
+                })
+            });
+            let (a, b) = if swap { (v, u) } else { (u, v) };
+            ctx.describe(|| format!("shape {} variant {di}: a={:?} b={:?}", ["equal", "opposite", "zero", "double", "unit"][shape], a, b));
+            let s: T = c(2.5);
+            ops::<T, Vector1<T>, 1>(ctx, [a[0]], [b[0]], s);
+            ops::<T, Vector2<T>, 2>(ctx, [a[0], a[1]], [b[0], b[1]], s);
+            ops::<T, Vector3<T>, 3>(ctx, [a[0], a[1], a[2]], [b[0], b[1], b[2]], s);
+            ops::<T, Vector4<T>, 4>(ctx, a, b, s);
+            let (a3, b3): ([T; 3], [T; 3]) = ([a[0], a[1], a[2]], [b[0], b[1], b[2]]);
+            cmp::<T, 3>(ctx, "cross/nearly-special", v3(mk_v3(a3).cross(mk_v3(b3))), model::cross(lift_v(a3), lift_v(b3)));
+            let (ma, mb) = (lift_v([a[0], a[1]]), lift_v([b[0], b[1]]));
+            cmp_s::<T>(ctx, "perp_dot/nearly-special", mk_v2([a[0], a[1]]).perp_dot(mk_v2([b[0], b[1]])), ma[0] * mb[1] - ma[1] * mb[0]);
+        },
+    );
+}
 fn all<D: Dom>(rep: &mut Report)
 where
     Vector1<D>: MaybeNeg,
@@ -440,5 +486,7 @@ fn main() {
     rep.assume("integer tiers: alphabets {0..3} / {-3..3} so that no product-and-sum of four components overflows; results whose exact value does not fit the type are not judged");
     rep.assume("component-wise clauses are judged against the scalar type's own primitive operation per component (bitwise), the bilinear ones against the exact model");
     for_all_doms!(all, &mut rep);
+    nearly_special::<f64>(&mut rep);
+    nearly_special::<f32>(&mut rep);
     std::process::exit(rep.finish());
 }
